@@ -1057,6 +1057,15 @@ void gen_c08(Gen &g) {
       prog.push_back(line_text(corpus_ret()));
     }
   }
+  if (!huge && r.chance(1, 6)) {
+    // any accepted line, not only what can be executed here: long instructions (12..15 bytes, padding gaps above 11),
+    // memory operands, filler lines and now and then a rejected line in the middle of a growing program
+    long nlines = std::max<long>(4, target / 5);
+    prog = gen_program(r, (int)nlines, 8, r.chance(1, 6) ? (int)r.range(1, 2) : -1);
+    if (mode >= 6 && mode <= 7 && r.coin())
+      for (Op &op : t.ops)
+        if (op.kind == OP_CHUNK) op.c = r.range(13, 40);
+  }
   unsigned split = (unsigned)r.below(10);
   int kind = mode >= 8 ? OP_COUNT : OP_ASM;
   long cc = mode >= 8 ? (r.chance(1, 8) ? r.range(-2, 1) : r.range(2, 64)) : 0;
